@@ -1,0 +1,97 @@
+//go:build verif
+
+package broadcast
+
+// Contracts for GoVC (see /verif/DESIGN.md). Comment-only: compiles to nothing.
+//
+// Broadcast is a monitor: mtx guards ch. Ghost history (set once per channel, never changed):
+//   issuedBy(w) : the Broadcast whose getWaitCh created channel w
+//   gettime(w)  : abstract time at which w was last handed out
+// closed(w) is monotone (a channel that is closed stays closed).
+//
+// C03, first sentence, is the pair of invariants B1/B2 together with the two helper contracts:
+//   B1  the current channel is open (a channel obtained after a broadcast stays open until the next one)
+//   B2  every channel this Broadcast ever handed out, other than the current one, is closed
+//       (a channel obtained in a critical section is closed by the first broadcast in any later one)
+//   S1  while mtx is held nobody else can close the current channel: clients only ever see it as a
+//       receive-only channel, and the only close() in this package runs under mtx (stability, used when
+//       time passes inside a critical section: callbacks, ctx.Err())
+//
+//@ ghostmap issuedBy: ref -> ref
+//@ ghostmap gettime: ref -> int
+//
+//@ object Broadcast
+//@   props C03 C13
+//@   lock mtx
+//@   guarded ch
+//@   inv B1: this.ch != nil ==> !closed(this.ch) && issuedBy(this.ch) == this
+//@   inv B2: forall w: ref {issuedBy(w)} :: issuedBy(w) == this && allocated(w) && w != nil && w != this.ch ==> closed(w)
+//@   stable S1: this.ch != nil ==> !closed(this.ch)
+//
+//@ func (*Broadcast).getWaitChLocked
+//@   props C03
+//@   opt holds = mtx
+//@   modifies this.ch, alloc, ghost:issuedBy, ghost:gettime
+//@   ghost exit: issuedBy(result) := c
+//@   ghost exit: gettime(result) := now()
+//@   ensures current: result != nil && result == c.ch && !closed(result) && issuedBy(result) == c && gettime(result) == now()
+//@   ensures others: forall w: ref :: w != result ==> issuedBy(w) == old(issuedBy(w)) && gettime(w) == old(gettime(w))
+//@   ensures fresh: old(c.ch) == nil ==> !old(allocated(result))
+//@   ensures onlynew: forall w: ref :: allocated(w) ==> old(allocated(w)) || w == result
+//@   ensures reuse: old(c.ch) != nil ==> c.ch == old(c.ch)
+//@   ensures nobroadcast: forall w: ref :: closed(w) ==> old(closed(w))
+//
+//@ func (*Broadcast).broadcastLocked
+//@   props C03
+//@   opt holds = mtx
+//@   modifies this.ch, time
+//@   ensures cleared: c.ch == nil && (old(c.ch) != nil ==> closed(old(c.ch)))
+//@   ensures onlycurrent: forall w: ref :: closed(w) && !old(closed(w)) ==> w == old(c.ch)
+//
+//@ func (*Broadcast).HoldLock
+//@   props C03 C13
+//@   inline
+//@   opt frame = skip
+//@   requires cb != nil
+//@   ensures once: calls(cb) == old(calls(cb)) + 1
+//
+//@ func (*Broadcast).TryHoldLock
+//@   props C03 C13
+//@   inline
+//@   opt frame = skip
+//@   requires cb != nil
+//@   ensures once: calls(cb) == old(calls(cb)) + ite(result, 1, 0)
+//
+//@ func (*Broadcast).HoldLockMaybeAsync
+//@   props C03 C13
+//@   inline
+//@   opt frame = skip
+//@   requires cb != nil
+//@   ensures once: calls(cb) + spawned(HoldLockMaybeAsync$1) == old(calls(cb) + spawned(HoldLockMaybeAsync$1)) + 1
+//
+//@ func (*Broadcast).HoldLockMaybeAsync$1
+//@   props C03 C13
+//@   inline
+//@   opt frame = skip
+//@   requires lock
+//@   requires cb != nil && c != nil
+//@   ensures once: calls(cb) == old(calls(cb)) + 1
+//
+// Wait. The predicate cb is opaque; lastret(cb, i) are the results of its most recent call and
+// calltime(cb) the abstract time of that call.
+//   - nil only after the predicate returned true; the predicate's error is returned unchanged;
+//   - context.Canceled (other than as the predicate's own error) only if ctx is cancelled;
+//   - no missed wake-up: the channel Wait blocks on was handed out by this Broadcast in the same
+//     critical section in which the predicate last returned (false, nil). By B2 that channel is open only
+//     while no later critical section has broadcast, i.e. (client obligation: every change that can make
+//     the predicate true broadcasts in the same critical section) only while the predicate is still false.
+//     The select listens to exactly that channel and to ctx.Done().
+//
+//@ func (*Broadcast).Wait
+//@   props C03
+//@   opt frame = skip
+//@   ensures niltrue: result == nil ==> calls(cb) > old(calls(cb)) && lastret(cb, 0) && lastret(cb, 1) == nil
+//@   ensures passerr: result != nil && result != context.Canceled && cb != nil && ctx != nil ==> calls(cb) > old(calls(cb)) && result == lastret(cb, 1)
+//@   ensures canceled: result == context.Canceled ==> cancelled(ctx) || (calls(cb) > old(calls(cb)) && lastret(cb, 1) == context.Canceled)
+//@   loop 1 invariant calls: calls(cb) >= old(calls(cb))
+//@   assert select 1: waitCh != nil && issuedBy(waitCh) == c && gettime(waitCh) == calltime(cb) && !lastret(cb, 0) && lastret(cb, 1) == nil
